@@ -50,16 +50,30 @@ def _rec(eid: str, parent: str | None, typ: str, t: int, job: str | None = None)
             "parent_event_id": parent}
 
 
-def judge(streams: list[list[dict]], batch_size: int, db_uri: str) -> tuple[str, dict | None, dict]:
-    """Ingest the streams one after the other (one holder per stream = one run) and compare
-    tables with the model."""
+def _model_remove_inconsistent(model: dict[str, dict]) -> dict[str, dict]:
+    broken = {s["job_id"] for s in model.values()
+              if s["parent_event_id"] and s["parent_event_id"] not in model}
+    return {k: s for k, s in model.items() if s["job_id"] not in broken}
+
+
+def judge(streams: list[list[dict]], batch_size: int, db_uri: str, same_holder: bool = False
+          ) -> tuple[str, dict | None, dict]:
+    """Ingest the streams one after the other (one holder per stream = one run; or, with
+    same_holder, one long-lived holder that removes the inconsistent traces between the
+    deliveries) and compare tables with the model."""
     info = {"integrity_errors": 0}
     model: dict[str, dict] = {}
     holder = None
     try:
-        for stream in streams:
-            holder = store.new_holder(db_uri, batch_size)
-            log = store.StatementLog(holder.engine)
+        for si, stream in enumerate(streams):
+            if holder is None or not same_holder:
+                holder = store.new_holder(db_uri, batch_size)
+                log = store.StatementLog(holder.engine)
+            elif si:
+                holder.remove_inconsistent_jobs()
+                before = len(model)
+                model = _model_remove_inconsistent(model)
+                info["removed_between_deliveries"] = before - len(model)
             store.ingest(holder, stream)
             model = store.model_first_wins(stream, model)
             info["integrity_errors"] += log.errors.get("IntegrityError", 0)
@@ -196,12 +210,16 @@ def run_chunk(case: dict) -> dict:
     def run_one(streams, b, meta, idx):  # noqa: ANN001
         nonlocal n
         file_db = len(streams) > 1 or idx % 5 == 0
+        same_holder = len(streams) > 1 and idx % 3 == 0
         if file_db:
             path = os.path.join(wd, f"db-{case['_idx']}-{idx}.sqlite")
             uri = "sqlite:///" + path
         else:
             uri = "sqlite:///:memory:"
-        v, d, info = judge(streams, b, uri)
+        v, d, info = judge(streams, b, uri, same_holder)
+        if same_holder:
+            bump("same_holder_with_cleaning_between_deliveries")
+            bump("spans_removed_between_deliveries", info.get("removed_between_deliveries", 0))
         if file_db and os.path.exists(path):
             os.remove(path)
         n += 1
@@ -216,7 +234,7 @@ def run_chunk(case: dict) -> dict:
                                    for s in st] for st in streams] + [b]))
         if v.startswith("violated") and len(fails) < 4:
             fails.append({"symptom": v[9:], "detail": d, "streams": streams, "batch_size": b,
-                          "meta": meta})
+                          "meta": dict(meta, same_holder=same_holder)})
 
     if case["kind"] == "exh":
         for idx, (seq, altered, stream) in enumerate(exhaustive_streams(case["max_len"])):
@@ -257,7 +275,9 @@ def main(tier: str, seed: int) -> int:
              "a0<-a1<-a2) with every duplicate placement, duplicates identical or with altered "
              "payload/parent, x every batch size 1..n+1; (b) seeded random streams of <=40 "
              "records over <=12 ids with altered duplicates, one or two runs on one database "
-             "file, batch sizes {1,2,3,random,n,n+1,1000}; a re-sent id may differ in payload, "
+             "file (every third two-run case on ONE long-lived holder that removes the "
+             "inconsistent traces between the deliveries), batch sizes "
+             "{1,2,3,random,n,n+1,1000}; a re-sent id may differ in payload, "
              "parent and trace/workflow; every 12th random case is a long stream (100-330 ids, "
              "1-4 duplicates anywhere) with batch sizes {64,99,100,101,128,129,250,n,n+5,1000}. "
              "distinct = distinct (stream(s), "
@@ -309,7 +329,8 @@ def run_replay(case: dict) -> dict:
     path = os.path.join(wd, "replay.sqlite")
     if os.path.exists(path):
         os.remove(path)
-    v, d, info = judge(case["streams"], case["batch_size"], "sqlite:///" + path)
+    v, d, info = judge(case["streams"], case["batch_size"], "sqlite:///" + path,
+                       case.get("meta", {}).get("same_holder", False))
     if os.path.exists(path):
         os.remove(path)
     return {"status": "ok", "verdict": v, "detail": d}
